@@ -111,3 +111,9 @@ CLAIMS['C13'] = dict(technique=GOCV + "; family contracts instantiated on code r
   text="Narrow: the merge equivalence is a relation between two executions and is not decided. Decided: collectFields marks fields collected through @defer fragments only after inclusion checks; in every generated object function a deferred field is registered only in the FieldSet of its label and never also in the main set, "
        "and deferred groups are only started when the object itself is valid; processDeferredGroup increments the pending counter once and starts exactly one goroutine that dispatches the group once and sends exactly one result carrying the group's own path and label." + PROBE,
   note=COMMON_NOTE + "Channel sends are ghost events; hasNext sequencing and delivery order are not decided.")
+
+CLAIMS['C20'] = dict(technique=GOCV + "; family contracts instantiated on federation code regenerated from the templates",
+  text="On the generated _entities code: buildRepresentationGroups records for every entry the loop index of its representation and that very representation (hence pairwise distinct indices); __resolve_entities returns a list with one slot per representation and joins every group; "
+       "in resolveEntityGroup every spawned closure writes at most one slot, list[rep.index] of its own representation, only when its resolver succeeded, and reports at most one error otherwise, one goroutine and one Done per representation; "
+       "resolveManyEntities zips positionally over a typedReps slice proved to have exactly len(reps) entries; resolveEntity/resolveManyEntities let no panic escape (they run on goroutines); a resolver name is returned only if not all key fields were null." + PROBE,
+  note=COMMON_NOTE + "No thread model: schedule independence follows only from the proved index-disjointness. Fieldset parsing and other schemas not decided.")
